@@ -167,6 +167,10 @@ def fold(
     else:
         repr_list = value
 
+    if reprs and isinstance(value, tuple) and len(repr_list) == 1 and (lbrack, rbrack) == ('(', ')'):
+        # a one-element tuple needs its trailing comma to read back as a tuple
+        repr_list = [f'{repr_list[0]},']
+
     valuestr = f'{prefix}{lbrack}{f'{sep} '.join(repr_list)}{rbrack}'
     if im.fitsfmt(valuestr, addlevels=addlevels):
         im.print(valuestr)
